@@ -1,6 +1,7 @@
 ----------------------------- MODULE FormatsTrace -----------------------------
 (* record kinds (harness/props/c17.py):                                        *)
 (*  cell : ms (markers present), junk, formats / formats2 (two calls),         *)
+(*         opts_same (the same list with the reporting options switched on),   *)
 (*         torch_accepts, same_bytes, same_listing                             *)
 (*  poly : outcome ("made" | "none" | "raised"), inputs_same, leftovers <<..>>,*)
 (*         expected <<formats the construction combines>>, out_formats <<..>>   *)
@@ -14,6 +15,7 @@ CellWhy(R) ==
   LET present == SeqSet(R.ms)  fs == R.formats
       zipfs == [i \in {j \in DOMAIN fs : fs[j] \in ZipSet} |-> fs[i]] IN
   IF R.formats # R.formats2 THEN "identification is not deterministic"
+  ELSE IF ~R.opts_same THEN "the answer depends on a reporting option (print_results / print_properties)"
   ELSE IF ~R.same_bytes THEN "identification modified the file"
   ELSE IF ~R.same_listing THEN "identification left files behind"
   ELSE IF ~Known(fs) THEN "unknown format name reported"
